@@ -28,7 +28,7 @@ MANIFEST = {
              "(same answers -> same graph). A QF_FP lemma (0 <= fl(r)*c <= fl(r) for every double c in [0,1] and "
              "32-bit r >= 1) justifies the abstraction of int(r * connectivity) for symbolic connectivity.",
     "note": "Bounds: full pipeline count 1..4; adjacency-dictionary contract count 1..8 / 1..12; "
-            "edge types DirectedEdge, UnDirectedEdge, another TwoEndedLink class. Outside: NaN / negative / >1 "
+            "edge types DirectedEdge, UnDirectedEdge, a user subclass of each, another TwoEndedLink class. Outside: NaN / negative / >1 "
             "connectivity, randint answers > 2^31. Trusted: pysym (validated per path on CPython with the RNG patched "
             "to the model's answers), z3 (incl. its floating-point theory).",
     "design_ref": "DESIGN.md 5 (C20)",
